@@ -1,9 +1,9 @@
 """C15 - certificates, requests and CRLs parse as issued and verify only as issued."""
-import random, hashlib
+import random
 from hypothesis import strategies as st
 from vlib.core import Prop
 from vlib.gen import h, u, hb, ub
-from vlib.ffi import lib, Buf, shim
+from vlib.ffi import lib, Buf
 from vlib.ref import der as D
 from vlib.ref import sm2 as M
 from vlib import x509lib as X
@@ -169,7 +169,7 @@ CRL_EXT_KINDS = ["aki", "ian", "crlnum", "delta", "idp", "fcrl_uri", "aia"]
 def _ext_list(kinds, fewer):
     """a set of extensions, each kind at most once, in a drawn order; `fewer` biases towards small sets"""
     def pick(t):
-        d, order, keep, dflt = t
+        d, order, keep = t
         items = [d[k] for k in kinds if k in d]
         items = [e for e in items if not (e["k"] == "seq" and e["id"] in d)]
         if fewer:
@@ -177,7 +177,7 @@ def _ext_list(kinds, fewer):
         rnd = random.Random(order)
         rnd.shuffle(items)
         return items
-    return st.tuples(st.fixed_dictionaries({}, optional={k: EXT_S[k] for k in kinds}), st.integers(0, 1 << 16), st.integers(0, 4), st.booleans()).map(pick)
+    return st.tuples(st.fixed_dictionaries({}, optional={k: EXT_S[k] for k in kinds}), st.integers(0, 1 << 16), st.integers(0, 4)).map(pick)
 
 
 _time = st.one_of(st.sampled_from([0, 1, 86399, 946684799, 946684800, (1 << 31) - 1, 1 << 31, Y2050 - 2, Y2050 - 1, Y2050, Y2050 + 1, MAXT - 1, MAXT]),
